@@ -75,6 +75,44 @@ PROPS['C02'] = {
     'assumptions': COMMON_ASSUMPTIONS + ['the device returns a count not larger than the buffer it was given'],
 }
 
+PROPS['C06'] = {
+    'modules': ['c06', 'fattype'],
+    'level': 'other',
+    'quick_configs': ['default'],
+    'thorough_configs': ALL,
+    'controls': [],
+    'floors': {'default': {'V0': 50, 'V1': 10, 'V2': 8, 'V3': 1, 'V4': 10, 'V5': 6, 'FT1': 1}},
+    'rule_text': 'one obligation per device write of format_volume (dominated by the Ok edge of format_boot_sector and the '
+                 'accepting edge of the strict self-validation: V1), per error construction in the layout code (only '
+                 'InvalidInput; the validation failure is re-labelled InvalidInput: V2), the boot-sector copies (one '
+                 'unmodified value, backup on the FAT32 arm behind its seek: V3), per initialisation step (FAT area, '
+                 'format_fat and its arguments, root area, FAT32 root cluster / whole-cluster zeroing / FS-info values and '
+                 'position, label entry: V4), per narrowing `as` cast in the formatting code (V5), per panic site of the '
+                 'formatting path outside the sizing arithmetic (V0) and the FAT-width decision table (FT1)',
+    'explanation': 'Structural clauses of the statement decided on the MIR of format_volume and of everything reachable '
+                   'from format_boot_sector: nothing is written before the assembled boot sector passed its own strict '
+                   'validation, so every volume that formatting writes satisfies what the validators establish (regions '
+                   'fit the declared size, FAT width follows the cluster count, the table addresses every cluster: '
+                   'properties C07/M2 of the same validators); rejections are InvalidInput only; both boot-sector copies '
+                   'are one value; every Ok path zeroes the FAT and root areas, initialises the FAT with the BPB\'s media '
+                   'byte / size / cluster count, and on FAT32 allocates and zeroes a whole root cluster and writes an '
+                   'FS-info sector with total_clusters - 1 free clusters; a requested label becomes a VOLUME_ID entry at '
+                   'the start of the root directory; 64-bit to 32-bit narrowing happens only behind a proved range or a '
+                   'reasoned entry; FatType::from_clusters implements the specified thresholds exactly (decision table '
+                   'over all u32). Panic sites outside the sizing arithmetic are discharged by interval analysis under '
+                   'the validated-BPB and option-setter invariants. NOT decided: that the sizing heuristics find a '
+                   'satisfiable layout for every size from 42 sectors to 2^32-1 (numeric), and absence of overflow inside '
+                   'them (their sites are counted in the evidence as not analysed).',
+    'claim': 'Validate-before-write, error kinds, boot-sector copies, initialisation steps and values, narrowing casts '
+             'and the FAT-width table hold on every path for every option set; the sizing arithmetic itself (success for '
+             'every size, no overflow inside the heuristics) is not decided.',
+    'level_note': 'V0 excludes the 23 functions reachable from format_boot_sector (count reported as V0.not-analysed)',
+    'technique': 'static analysis: dominance / must-pass-through / dependence on MIR + interval abstract interpretation + '
+                 'decision table',
+    'assumptions': COMMON_ASSUMPTIONS + ['FormatVolumeOptions values are built through the public setters (their asserts '
+                                         'are documented panics of the builder API, not of format_volume)'],
+}
+
 PROPS['C09'] = {
     'modules': ['c09'],
     'level': 'other',
